@@ -130,6 +130,10 @@ def call_spec(draw, p, max_attempts: int):
     ab = p.get("abort", 0.25)
     if ab and chance(draw, ab, "s7"):
         c["abort"] = draw(st.integers(0, 3 * max_attempts + 1))
+    elif ab and chance(draw, 0.3, "abort-at"):
+        # abort requested from a moment in time on (typically while the call is backing off or running an attempt)
+        c["abort_at"] = draw(st.one_of(st.integers(0, 16), st.integers(0, 200)))
+        c["poll"] = True
     elif ab and draw(st.booleans()):
         c["poll"] = True  # abort_if installed but never answers True
     if (c.get("abort") is not None or c.get("poll")) and chance(draw, 0.3, "abort-style"):
@@ -202,6 +206,12 @@ def retry_case(draw, p):
         if j > 0 and draw(st.booleans()):
             c["advance"] = draw(st.integers(0, 64))
         calls.append(c)
+    lw = p.get("late_wake", 0.15 if p.get("deadline_aware") else 0.0)
+    if lw and cfg.get("deadline") is not None and chance(draw, lw, "late-wake"):
+        # the sleeper comes back around the deadline (a loaded host, a coarse timer): the check made after
+        # waking is the one that has to end the run
+        j = draw(st.sampled_from([0, 0, 0, 1, 2]))
+        calls[0]["overshoot"] = [0] * j + [{"until": draw(st.sampled_from([1, 1, 2, 16, 0, -1]))}]
     case: dict = {"cfg": cfg, "calls": calls}
     if p.get("jumps") and draw(st.booleans()):
         case["jumps"] = draw(st.lists(st.sampled_from([0, 3600, -3600, 86400, -86400 * 365, 0.5]), min_size=1, max_size=6))
